@@ -127,6 +127,8 @@ def check(world, spec, outcome) -> None:
     spurious_idle = False
     send_times = []
     aborted_pending = 0
+    put_seq: dict = {}
+    last_idle_pub = None
     for seq, t, kind, f in recs:
         if kind == "send":
             sends[f["uid"]] = (seq, t)
@@ -137,6 +139,7 @@ def check(world, spec, outcome) -> None:
             returned.add(f["uid"])
         elif kind == "mailbox-put" and f.get("tick") == "add_event":
             in_mailbox.add(f["uid"])
+            put_seq.setdefault(f["uid"], seq)
         elif kind == "tick":
             if f["tick"] == "add_event":
                 processed.add(f["uid"])
@@ -150,6 +153,8 @@ def check(world, spec, outcome) -> None:
             if f["exit"] == "cancelled":
                 unacked.pop((f["step"], str(f["uid"])), None)
         elif kind == "publish":
+            if f["ev"] == "WorkflowIdleEvent":
+                last_idle_pub = seq
             if f["ev"] in ("StopEvent", "WorkflowFailedEvent", "WorkflowCancelledEvent", "WorkflowTimedOutEvent") and ended_at is None:
                 ended_at = seq
             elif f["ev"] == "WorkflowIdleEvent" and any(u in in_mailbox and u not in processed for u in sends):
@@ -177,8 +182,15 @@ def check(world, spec, outcome) -> None:
                     world.probe("send-at-release-instant")
                 if work:
                     world.probe("release-while-working")
+                    # root cause attribute: the idle announcement this release rests on (the last one before it; a send in
+                    # between would have cleared idle_since) was made while an external send was between its call and its
+                    # arrival in the mailbox, i.e. inside IdleReleaseExternalRunAdapter.send_event's clear-then-deliver window
+                    in_flight = last_idle_pub is not None and any(
+                        sseq < last_idle_pub and (put_seq.get(u) is None or put_seq[u] > last_idle_pub) for u, (sseq, _) in sends.items())
+                    if in_flight:
+                        world.probe("idle-marked-while-send-in-flight")
                     world.violate("C26.released-with-work", f"run released at t={t} while it had work: {work}", seq,
-                                  work=work[0].split(":")[0], after_spurious_idle=spurious_idle)
+                                  work=work[0].split(":")[0], after_spurious_idle=spurious_idle, send_in_flight_at_idle=in_flight)
         elif kind == "runner-start":
             live += 1
             if live >= 2:
